@@ -48,6 +48,27 @@ func leadConst(e *Expr) (string, bool) {
 	return "", false
 }
 
+// mapOrder: the text of a map type reads map[<key>]<value>: in the returned
+// expression (a Sprintf over its operands, or a concatenation) the name of
+// the key comes before the name of the value.
+func mapOrder(p *Path, r *Expr) (ok, decided bool) {
+	flat := r.String()
+	if r.calleeIs("fmt", "Sprintf") && len(r.Args) == 3 && r.Args[2].Op == OpSlice {
+		arr := r.Args[2].Args[0].String()
+		flat = ""
+		for i := 0; i < 4; i++ {
+			if v := p.Cells[arr+fmt.Sprintf("[%d]", i)]; v != nil {
+				flat += v.String() + " | "
+			}
+		}
+	}
+	k, v := strings.Index(flat, ".Key"), strings.Index(flat, ".Value")
+	if k < 0 || v < 0 {
+		return false, false
+	}
+	return k < v, true
+}
+
 var reAssertKind = regexp.MustCompile(`^\w+\.Type\.\(\*ast\.(\w+)\)#1$`)
 
 func augTypeStr(c *Ctx, a *flAgg) {
@@ -82,6 +103,13 @@ func augTypeStr(c *Ctx, a *flAgg) {
 				}
 			}
 			pre, exact := leadConst(p.Results[0])
+			if kind == "MapType" {
+				if ok, decided := mapOrder(p, p.Results[0]); decided && !ok {
+					a.bad("AUG-typestr", "name/MapType-order", "a map type is written with the value type inside the brackets and the key type after them", pathPos(p, nf))
+				} else if decided {
+					a.ok("AUG-typestr", "name/MapType-order", "a map type reads map[key]value", pathPos(p, nf))
+				}
+			}
 			if old, seen := nameShape[kind]; seen && (old.pre != pre || old.exact != exact) {
 				nameShape[kind] = shape{}
 			} else if !seen {
@@ -134,6 +162,13 @@ func augTypeStr(c *Ctx, a *flAgg) {
 			continue
 		}
 		seen[kind] = true
+		if kind == "MapType" {
+			if ok, decided := mapOrder(p, p.Results[0]); decided && !ok {
+				a.bad("AUG-typestr", "fieldToType/MapType-order", "a map type is written with the value type inside the brackets and the key type after them: the rendered argument names a type the program does not have", pos)
+			} else if decided {
+				a.ok("AUG-typestr", "fieldToType/MapType-order", "a map type reads map[key]value", pos)
+			}
+		}
 		pre, exact := leadConst(p.Results[0])
 		// name(f.Type): the shape name() gives this kind
 		if r := p.Results[0]; r.Op == OpCall && r.Fn != nil && r.Fn.Name() == "name" && len(r.Args) == 2 && strings.HasSuffix(r.Args[1].String(), ".Type") {
